@@ -34,7 +34,8 @@ META = {
             '(query form, scope layout, expression source); expression of static type int/str/bool over ints, strings, a '
             'list, a dict, an object and functions of the caller scope. Non-trivial = at least 2 nodes and at least one name.',
     'assumptions': ['expressions without side effects (evaluation count/order is not observed)',
-                    'queries are written in the function that calls select()/Entity.select() (caller scope == defining scope)',
+                    'queries are written in the function that calls select()/Entity.select(), or are passed to it with all '
+                    'their non-global names bound in their own closure (caller scope and defining scope agree)',
                     'SQLite only'],
     'shims': [],
     'exhaustive_tiers': [],
@@ -375,8 +376,9 @@ def make_values(rng, decoy=False):
 
 
 E2E_NAMES = ('a', 'b', 'c', 'd', 's', 't', 'xs', 'dd', 'o', 'fn')
-FORMS_E2E = ('gen', 'gen_module', 'str_frame', 'str_explicit', 'lam', 'lam_str', 'filter_lam', 'gen_nested')
-DECOMPILED_FORMS = ('gen', 'gen_module', 'lam', 'filter_lam', 'gen_nested')
+FORMS_E2E = ('gen', 'gen_module', 'str_frame', 'str_explicit', 'lam', 'lam_str', 'filter_lam', 'gen_nested',
+             'gen_passed', 'lam_passed')
+DECOMPILED_FORMS = ('gen', 'gen_module', 'lam', 'filter_lam', 'gen_nested', 'gen_passed', 'lam_passed')
 ATTR = {'int': 'n', 'str': 's', 'bool': 'flag'}
 
 
@@ -387,7 +389,7 @@ def build_case(rng, form, typ, e, used):
     cond = 'p.%s == (%s)' % (ATTR[typ], e)
     gen_q = 'p for p in Person if ' + cond
     lam_q = 'lambda p: ' + cond
-    query = {'gen': 'select(%s)' % gen_q, 'gen_module': 'select(%s)' % gen_q, 'gen_nested': 'select(%s)' % gen_q,
+    query = {'gen_passed': None, 'lam_passed': None, 'gen': 'select(%s)' % gen_q, 'gen_module': 'select(%s)' % gen_q, 'gen_nested': 'select(%s)' % gen_q,
              'str_frame': 'select(%r)' % gen_q, 'str_explicit': None,
              'lam': 'Person.select(%s)' % lam_q, 'lam_str': 'Person.select(%r)' % lam_q,
              'filter_lam': 'select(p for p in Person).filter(%s)' % lam_q}[form]
@@ -419,6 +421,36 @@ def build_case(rng, form, typ, e, used):
             exec(code, ns)
             return ns['q'], ns['expected']
         return run, {n: 'global' for n in used}, dict(ns)
+    if form in ('gen_passed', 'lam_passed'):
+        # the generator / lambda is created in one function (its names are that function's parameters, i.e. closure
+        # cells of the query) and handed to another function that calls select(); that function has locals of the
+        # same names holding decoys.  Names the query reads as globals get no decoy local (Pony documents that it
+        # looks into the calling frame first; Python would not - outside what the property states).
+        for n in used: layout[n] = rng.choice(('cell', 'cell', 'global'))
+        cells = [n for n in used if layout[n] == 'cell']
+        shadow = [n for n in cells if rng.random() < 0.7]
+        ns = {n: vals[n] for n in used if layout[n] == 'global'}
+        ns['_vals'] = vals; ns['_decoys'] = decoys
+        made = '(%s)' % gen_q if form == 'gen_passed' else lam_q
+        use = 'select(x)' if form == 'gen_passed' else 'Person.select(x)'
+        lines = ['def definer(%s):' % ', '.join(cells),
+                 '    x = %s' % made,
+                 '    expected = (%s)' % e,
+                 '    return x, expected',
+                 'def user(x%s):' % ''.join(', ' + n for n in shadow),
+                 '    return %s' % use,
+                 'def outer():',
+                 '    x, expected = definer(%s)' % ', '.join('_vals[%r]' % n for n in cells),
+                 '    return user(x%s), expected' % ''.join(', _decoys[%r]' % n for n in shadow)]
+        exec(compile('\n'.join(lines) + '\n', '<c04-passed>', 'exec'), ns)
+        outer = ns['outer']
+
+        def run(select, Person):
+            ns['select'] = select; ns['Person'] = Person
+            return outer()
+        layout = {n: ('closure_of_query' + ('+decoy_local_in_calling_frame' if n in shadow else ''))
+                  if layout[n] == 'cell' else 'global' for n in used}
+        return run, layout, {n: vals[n] for n in used}
     # function forms
     kinds = ('global', 'param', 'local', 'cell') if form != 'gen_nested' else ('cell', 'cell', 'local', 'global', 'param')
     for n in used: layout[n] = rng.choice(kinds)
@@ -465,7 +497,7 @@ def e2e_case(ctx, G, P, rng, idx, forced=None):
     # generator/lambda queries go through the decompiler first; shapes that C03 lists as decompiled wrongly or
     # rejected (conditional expressions, and/or used as a value inside a generator `if`, chained comparisons) are
     # left to C03 and only generated for the string forms
-    lam = form in ('lam', 'filter_lam')
+    lam = form in ('lam', 'filter_lam', 'lam_passed')
     e, tree = G.typed_source(rng, typ, rng.randint(2, 14), ifexp=not decompiled, boolop=(not decompiled) or lam,
                              chain=not decompiled)
     if forced:
